@@ -396,6 +396,24 @@ WORKBOOKS_OBS['offset_obs'] = dict(
             'A3:C3': [['A3', 'B3', 'C3']]},
     aliases={'B:B': 'B1:B4', '3:3': 'A3:C3'})
 
+# blank cells beyond the used area (A4 below, D1 to the right of the data) which
+# no formula reads: reading one of them first must not change what the
+# unbounded column / row are clipped to (the used area belongs to the workbook)
+WORKBOOKS_OBS['beyond_obs'] = dict(
+    inputs={'A1': 1, 'A2': 2, 'A4': None, 'D1': None, 'E1': None, 'E2': None},
+    # (E:E lies beyond the used area A1:C2 altogether: blank cells, its sum is 0)
+    formulas={'B1': ('SumR', 'A:A'), 'B2': ('Plus', ['A1'], 1), 'C1': ('SumR', 'E:E')},
+    ranges={'A1:A2': [['A1'], ['A2']], 'A1:C1': [['A1', 'B1', 'C1']],
+            'E1:E2': [['E1'], ['E2']]},
+    aliases={'A:A': 'A1:A2', '1:1': 'A1:C1', 'E:E': 'E1:E2'})
+
+# a sheet of one row: the unbounded column A:A is clipped to the single cell A1
+WORKBOOKS_OBS['onecell_obs'] = dict(
+    inputs={'A1': 5},
+    formulas={'B1': ('SumR', 'A:A'), 'C1': ('Plus', ['A1'], 1)},
+    ranges={'A1:C1': [['A1', 'B1', 'C1']]},
+    aliases={'A:A': 'A1', '1:1': 'A1:C1'})
+
 # Workbooks whose formulas are outside the formula kinds Engine.tla knows: the
 # kinds below only give the model the same dependency shape, the real formula
 # text is in `texts`.  Tours over them are judged by observables only.
